@@ -357,9 +357,9 @@ def bkAfter (env : Env) (e : Ev) (failed : Bool) : Env × List Step :=
   | .START_ACTIVITY =>
     let (env, t) := tick env
     ({ env with vars := { env.vars with eosor := .val t } }, [Step.tsSet 1 t, Step.runEvent e.name status env.rn t])
-  | .STOP_ACTIVITY =>
-    let (env, t) := tick env
-    ({ env with vars := { env.vars with eoeor := .val t } }, [Step.tsSet 3 t, Step.runEvent e.name status env.rn t])
+  -- guarded like its neighbours since "fix: after_STOP_ACTIVITY stamps run_end_completion_time_ms only if it is
+  -- still empty" (the write as it was: `bkAfterLegacy`, Model/EnvLegacy.lean)
+  | .STOP_ACTIVITY => setEoeorIfEmpty env e.name status
   | .GO_ERROR => setEoeorIfEmpty env e.name .doneOk
   | _ => (env, [])
 
